@@ -166,6 +166,11 @@ pub enum TMut {
     SetByte(u16, u8),
     /// extra (non-minimal) TLF bytes on a node
     Extra(u16, u8),
+    /// a list keeps only its first k children (a structure of smaller arity whose contents are
+    /// otherwise consistent - e.g. a response without its trailing optional fields)
+    KeepFirst(u16, u8),
+    /// k absent markers are appended to a list (a structure of larger arity)
+    Append(u16, u8),
 }
 
 pub fn tmut() -> impl Strategy<Value = TMut> {
@@ -182,6 +187,8 @@ pub fn tmut() -> impl Strategy<Value = TMut> {
         1 => any::<u16>().prop_map(TMut::Unwrap),
         3 => (any::<u16>(), prop_oneof![Just(0u8), Just(1u8), Just(2u8), Just(7u8), any::<u8>()]).prop_map(|(k, b)| TMut::SetByte(k, b)),
         2 => (any::<u16>(), 1u8..4).prop_map(|(k, e)| TMut::Extra(k, e)),
+        3 => (any::<u16>(), 0u8..9).prop_map(|(k, n)| TMut::KeepFirst(k, n)),
+        2 => (any::<u16>(), 1u8..4).prop_map(|(k, n)| TMut::Append(k, n)),
     ]
 }
 
@@ -203,7 +210,7 @@ pub fn apply(nodes: &mut Vec<Node>, m: &TMut) -> &'static str {
         return "noop";
     }
     let x = match m {
-        TMut::Retype(k, _) | TMut::Resize(k, _, _) | TMut::Replace(k, _, _, _) | TMut::Drop(k) | TMut::Dup(k) | TMut::Insert(k, _) | TMut::SwapNext(k) | TMut::Wrap(k) | TMut::Unwrap(k) | TMut::SetByte(k, _) | TMut::Extra(k, _) => *k,
+        TMut::Retype(k, _) | TMut::Resize(k, _, _) | TMut::Replace(k, _, _, _) | TMut::Drop(k) | TMut::Dup(k) | TMut::Insert(k, _) | TMut::SwapNext(k) | TMut::Wrap(k) | TMut::Unwrap(k) | TMut::SetByte(k, _) | TMut::Extra(k, _) | TMut::KeepFirst(k, _) | TMut::Append(k, _) => *k,
     };
     apply_at(nodes, pick(x, total), m)
 }
@@ -222,6 +229,8 @@ pub fn apply_at(nodes: &mut Vec<Node>, k: usize, m: &TMut) -> &'static str {
         TMut::Unwrap(_) => "unwrap",
         TMut::SetByte(..) => "set-byte",
         TMut::Extra(..) => "extra-tlf-bytes",
+        TMut::KeepFirst(..) => "keep-first-children",
+        TMut::Append(..) => "append-children",
     };
     let m = m.clone();
     with_kth(nodes, k, &mut |parent: &mut Vec<Node>, i: usize| match &m {
@@ -283,6 +292,18 @@ pub fn apply_at(nodes: &mut Vec<Node>, k: usize, m: &TMut) -> &'static str {
             Node::Prim { extra, .. } | Node::List { extra, .. } => *extra = *e,
             Node::End => {}
         },
+        TMut::KeepFirst(_, n) => {
+            if let Node::List { items, .. } = &mut parent[i] {
+                items.truncate(*n as usize);
+            }
+        }
+        TMut::Append(_, n) => {
+            if let Node::List { items, .. } = &mut parent[i] {
+                for _ in 0..*n {
+                    items.push(Node::Prim { ty: TY_OCTET, data: vec![], extra: 0 });
+                }
+            }
+        }
     });
     label
 }
@@ -320,6 +341,12 @@ pub fn catalogue() -> Vec<TMut> {
         v.push(TMut::SetByte(0, b));
     }
     v.push(TMut::Extra(0, 1));
+    for n in 0..=8u8 {
+        v.push(TMut::KeepFirst(0, n));
+    }
+    for n in 1..=2u8 {
+        v.push(TMut::Append(0, n));
+    }
     v
 }
 
